@@ -461,7 +461,12 @@ namespace Pistache
 
     std::ostream& operator<<(std::ostream& os, const Address& address)
     {
-        os << address.host() << ":" << address.port();
+        /* An IPv6 literal must be bracketed, otherwise the port separator
+         * cannot be told from the address and the text does not parse back */
+        if (address.family() == AF_INET6)
+            os << "[" << address.host() << "]:" << address.port();
+        else
+            os << address.host() << ":" << address.port();
         return os;
     }
 
